@@ -394,7 +394,7 @@ def run_subsets(ctx, part, tier, shard, nshards):
 
 def parts(tier):
     return [EnumPart('characteristic-subsets', run_subsets, check_subset),
-            HypPart('logical-files', L.logical_files(), check_file, 2200, 80000)]
+            HypPart('logical-files', L.logical_files(), check_file, 2200, 60000)]
 
 
 def exhaustive_note(tier, total):
